@@ -238,6 +238,10 @@ def _known_real(v):
 
 
 class Interp(object):
+    # values known to be two-dimensional arrays (so that x.T[k] == x[:, k]); each entry is established by a rule:
+    #   self.stencil_coords = array(where(stencil == 1)).T with a 2-D stencil is (n, 2)      (C04 K8.stencil-coordinates)
+    rank2 = frozenset({"self.stencil_coords"})
+
     def __init__(self, index, opaque=(), inline_depth=6, int_transparent=False,
                  square=False, round_transparent=False):
         self.ix = index
@@ -271,6 +275,9 @@ class Interp(object):
         self.functions_seen.add(finfo.fq)
         ctx = Ctx(finfo, self_obj, depth)
         ctx.locals = self.ix.local_names(finfo)
+        if depth:
+            # an inlined callee runs inside the loops of its caller: its own loops (and draws) are numbered from there
+            ctx.loop_depth = getattr(self, "_inherit_loop_depth", 0)
         env = {}
         params = list(finfo.params)
         args = list(args or [])
@@ -693,8 +700,29 @@ class Interp(object):
             # unpacking fixes the rank: name the extents by their negative index
             return [self.shape_elem(v.v, i - n, n) for i in range(n)]
         if isinstance(v, Rat):
-            return [Rat.atom(Fn("getitem", (v, Rat.const(i)))) for i in range(n)]
+            d = v.single_atom()
+            if isinstance(d, Fn) and d.name == "draw" and isinstance(d.args[4], tuple) and len(d.args[4]) >= 2 and \
+                    isinstance(d.args[4][0], Rat) and pyconst(d.args[4][0]) == n and isinstance(d.args[0], Rat) and \
+                    self.draw_counts.get(d.args[0].key()) == d.args[5]:
+                # a, b = R.normal(size=(2,) + shape): a Generator fills its output sequentially with no state kept between
+                # calls, so the leading slices are the draws R.normal(size=shape) made one after the other
+                k_ = d.args[0].key()
+                rest = d.args[4][1:]
+                rest = rest[0] if len(rest) == 1 else tuple(rest)
+                out = [Rat.atom(Fn("draw", d.args[:4] + (rest, d.args[5] + i, d.args[6]))) for i in range(n)]
+                self.draw_counts[k_] = d.args[5] + n - 1
+                return out
+            return [self._row_of_transpose(v, Rat.const(i)) or Rat.atom(Fn("getitem", (v, Rat.const(i)))) for i in range(n)]
         return [unk("unpack", i) for i in range(n)]
+
+    def _row_of_transpose(self, v, k):
+        """x.T[k] is x[:, k] for an array x the driver has declared two-dimensional (Interp.rank2: names of such values)"""
+        a = v.single_atom() if isinstance(v, Rat) else None
+        if isinstance(a, Fn) and a.name == "T" and len(a.args) == 1 and isinstance(a.args[0], Rat):
+            b = a.args[0].single_atom()
+            if isinstance(b, Sym) and b.name in getattr(self, "rank2", ()) and isinstance(k, Rat) and isinstance(pyconst(k), int):
+                return Rat.atom(Fn("getitem", (a.args[0], (("slice", Rat.const(0), None, None), k))))
+        return None
 
     def st_If(self, st, s, ctx):
         t = self.truth(st.test, s.env, ctx)
@@ -883,6 +911,29 @@ class Interp(object):
                 ast.fix_missing_locations(loop)
                 body = [loop]
             return self.st_For(body[0], s, ctx)
+        # for i, j in zip(*numpy.tril_indices(n)): ...   is   for i in range(n): for j in range(i + 1): ...
+        # for i, j in zip(*numpy.triu_indices(n)): ...   is   for i in range(n): for j in range(i, n): ...      (row-major order)
+        if isinstance(st.iter, ast.Call) and norm_text(st.iter.func) == "zip" and len(st.iter.args) == 1 and not st.iter.keywords \
+                and isinstance(st.iter.args[0], ast.Starred) and isinstance(st.iter.args[0].value, ast.Call) \
+                and norm_text(st.iter.args[0].value.func).split(".")[-1] in ("tril_indices", "triu_indices") \
+                and len(st.iter.args[0].value.args) == 1 and not st.iter.args[0].value.keywords \
+                and isinstance(st.target, ast.Tuple) and len(st.target.elts) == 2 and all(isinstance(t_, ast.Name) for t_ in st.target.elts) \
+                and not st.orelse:
+            n_ = st.iter.args[0].value.args[0]
+            ti, tj = st.target.elts
+            load = lambda t_: ast.Name(id=t_.id, ctx=ast.Load())
+            if norm_text(st.iter.args[0].value.func).split(".")[-1] == "tril_indices":
+                inner_args = [ast.BinOp(left=load(ti), op=ast.Add(), right=ast.Constant(value=1))]
+            else:
+                inner_args = [load(ti), n_]
+            inner = ast.For(target=tj, iter=ast.Call(func=ast.Name(id="range", ctx=ast.Load()), args=inner_args, keywords=[]),
+                            body=st.body, orelse=[])
+            outer = ast.For(target=ti, iter=ast.Call(func=ast.Name(id="range", ctx=ast.Load()), args=[n_], keywords=[]),
+                            body=[inner], orelse=[])
+            for x_ in (inner, outer):
+                ast.copy_location(x_, st)
+                ast.fix_missing_locations(x_)
+            return self.st_For(outer, s, ctx)
         it = self.ev(st.iter, s.env, ctx)
         fq = ctx.finfo.fq
         ctx.loop_depth += 1
@@ -1236,6 +1287,12 @@ class Interp(object):
                 if isinstance(op, (ast.In, ast.NotIn)) and isinstance(rc, dict) and not isinstance(lc, Rat):
                     res = lc in rc
                     return res if isinstance(op, ast.In) else not res
+                if isinstance(op, (ast.In, ast.NotIn)) and isinstance(rc, (tuple, list)) and isinstance(lc, (str, int, float, bool)):
+                    # membership of a literal in a tuple / list of literals
+                    items = [pyconst(x) for x in rc]
+                    if all(isinstance(x, (str, int, float, bool)) for x in items):
+                        res = lc in items
+                        return res if isinstance(op, ast.In) else not res
                 return None
             try:
                 if isinstance(op, ast.Eq):
@@ -1366,7 +1423,9 @@ class Interp(object):
                 car = sorted(set(x.name for x in o.atoms() if isinstance(x, Sym) and "array" in x.flags))
                 if len(car) == 1:
                     return Rat.sym("ndim(%s)" % car[0], ("int",))       # same normal form as len(x.shape)
-            if a in ("dtype", "size", "ndim", "flat"):
+            if a == "flat":
+                return Rat.atom(Fn("flatten", (o,)))        # iterating / indexing x.flat reads the elements of x.ravel()
+            if a in ("dtype", "size", "ndim"):
                 return Rat.atom(Fn(a, (o,)))
             at_ = o.single_atom()
             if isinstance(at_, Fn) and at_.name.endswith("scipy.optimize.minimize") and a in ("x", "fun", "success", "nit"):
@@ -1454,7 +1513,7 @@ class Interp(object):
                 var = Sym(la.args[1], ("int", "loopvar"))
                 at = lo_ + idx * st_
                 return la.args[0].subst(lambda a: at if a == var else None)
-            return Rat.atom(Fn("getitem", (o, idx)))
+            return self._row_of_transpose(o, idx) or mk_getitem(o, idx)
         return unk("subscript", repr(o))
 
     def seq_read(self, seq, idx):
@@ -1606,6 +1665,9 @@ class Interp(object):
         if isinstance(op, ast.Mult) and isinstance(l, list) and isinstance(r, Rat):
             if all(isinstance(x, Rat) and x.is_zero() for x in l):
                 return Rat.const(0)         # a list of zeros of any length acts as the zero array
+            if len(l) == 1 and not isinstance(l[0], (list, dict)):
+                # [item] * n is [item for _ in range(n)]
+                return Rat.atom(Fn("listcomp", (l[0], "c%d@c" % getattr(self, "_comp_depth", 0), (Rat.const(0), r, Rat.const(1)))))
             return Rat.atom(Fn("listrep", (tuple(l), r)))
         if isinstance(op, ast.Add) and isinstance(l, (list, tuple)) and isinstance(r, type(l)):
             return l + r
@@ -1638,11 +1700,17 @@ class Interp(object):
                 lc, rc = pyconst(l), pyconst(r)
                 if isinstance(lc, (int, float)) and isinstance(rc, (int, float)) and rc != 0:
                     return Rat.const(lc // rc)
+                g_ = _flat_index_grid(l, r, 0)
+                if g_ is not None:
+                    return g_
                 return Rat.atom(Fn("floordiv", (l, r)))
             if isinstance(op, ast.Mod):
                 lc, rc = pyconst(l), pyconst(r)
                 if isinstance(lc, (int, float)) and isinstance(rc, (int, float)) and rc != 0:
                     return Rat.const(lc % rc)
+                g_ = _flat_index_grid(l, r, 1)
+                if g_ is not None:
+                    return g_
                 return Rat.atom(Fn("mod", (l, r)))
         except ZeroDivisionError:
             return unk("zerodiv")
@@ -1720,10 +1788,13 @@ class Interp(object):
         sub.__dict__ = self.__dict__        # share logs / settings
         prev = getattr(self, "_inherit_facts", None)
         self._inherit_facts = dict(getattr(ctx, "facts_now", None) or {})
+        prev_ld = getattr(self, "_inherit_loop_depth", 0)
+        self._inherit_loop_depth = ctx.loop_depth
         try:
             states = sub.run(finfo, args, kwargs, self_obj, ctx.depth + 1)
         finally:
             self._inherit_facts = prev
+            self._inherit_loop_depth = prev_ld
         cctx = sub._last_ctx
         # by-reference effects on array arguments (out-parameters)
         if call_node is not None and env is not None and cctx.mutated:
@@ -1800,7 +1871,7 @@ class Interp(object):
         x = recv
         ax = args[0] if args else kwargs.get("axis")
         if name in ("sum", "mean", "max", "min", "std", "var", "prod", "argmax", "argmin", "all", "any"):
-            return Rat.atom(Fn(name, (x, _axis(ax))))
+            return mk_reduce(name, x, _axis(ax))
         if name == "dot":
             return Rat.atom(Fn("dot", (x, args[0])))
         if name == "diagonal" and not args and not kwargs:
@@ -1936,6 +2007,21 @@ STR_METHODS = {"strip", "lstrip", "rstrip", "upper", "lower", "title", "capitali
 CMP_NAMES = {"Lt": "<", "LtE": "<=", "Gt": ">", "GtE": ">=", "Eq": "==", "NotEq": "!=", "In": "in", "NotIn": "not in"}
 
 
+def _flat_index_grid(l, r, axis):
+    """reshape(arange(a*b), (a, b)) % b is the column index (the vector arange(b) along axis 1), // b the row index (arange(a)
+    along axis 0)"""
+    a = l.single_atom() if isinstance(l, Rat) else None
+    if not (isinstance(a, Fn) and a.name == "reshape" and len(a.args) >= 2 and isinstance(a.args[0], Rat) and isinstance(r, Rat)):
+        return None
+    shp = a.args[1] if len(a.args) == 2 and isinstance(a.args[1], tuple) else tuple(a.args[1:])
+    ar = a.args[0].single_atom()
+    if not (len(shp) == 2 and all(isinstance(x, Rat) for x in shp) and isinstance(ar, Fn) and ar.name == "arange" and len(ar.args) == 3
+            and isinstance(ar.args[0], Rat) and ar.args[0].is_zero() and isinstance(ar.args[2], Rat) and ar.args[2].real_const() == 1
+            and isinstance(ar.args[1], Rat) and ar.args[1] == shp[0] * shp[1] and r == shp[1]):
+        return None
+    return mk_grid(Rat.atom(Fn("arange", (Rat.const(0), shp[axis], Rat.const(1)))), axis)
+
+
 def mk_T(x):
     """transpose with the algebra pushed inwards: T(T(a)) = a, T(a.b) = T(b).T(a), T(pinv(M)) = pinv(T(M)),
     T(M[r, c]) = T(M)[c, r], T(S) = S for symbols flagged symmetric; elementwise products and sums distribute."""
@@ -1963,9 +2049,16 @@ def mk_T(x):
                 return Rat.atom(Fn("getitem", (mk_T(a.args[0]), (a.args[1][1], a.args[1][0]))))
             if a.name in ("identity", "diagmat"):
                 return Rat.atom(a)
+            if a.name == "grid" and len(a.args) == 2 and a.args[1] in (0, 1):
+                return Rat.atom(Fn("grid", (a.args[0], 1 - a.args[1])))       # a vector along one axis of a 2-D array, transposed
         return None
     if not x.den_is_one():
-        return Rat.atom(Fn("T", (x,)))
+        # the quotient is elementwise: T(n / d) = T(n) / T(d)
+        nT, dT = mk_T(Rat(dict(x.num))), mk_T(Rat(dict(x.den)))
+        whole = lambda v, src: isinstance(v.single_atom(), Fn) and v.single_atom().name == "T" and len(src) > 1
+        if whole(nT, x.num) or whole(dT, x.den):
+            return Rat.atom(Fn("T", (x,)))
+        return nT / dT
     out = Rat({})
     for m, c in x.num.items():
         t = Rat.const(c)
@@ -2054,6 +2147,18 @@ def _array(I, a, k, e, env, ctx):
         return a[0]
     if a and isinstance(a[0], (list, tuple)):
         return Rat.atom(Fn("array", (tuple(a[0]),)))
+    return NotImplemented
+
+
+@ext("numpy.stack")
+def _stack(I, a, k, e, env, ctx):
+    # stacking along a new leading axis is what numpy.array does with a list of equal-shape arrays
+    ax = a[1] if len(a) > 1 else k.get("axis", Rat.const(0))
+    if a and isinstance(ax, Rat) and ax.is_zero() and set(k) <= {"axis"}:
+        if isinstance(a[0], Rat):
+            return a[0]
+        if isinstance(a[0], (list, tuple)):
+            return Rat.atom(Fn("array", (tuple(a[0]),)))
     return NotImplemented
 
 
@@ -2185,8 +2290,18 @@ def _reduce(I, a, k, e, env, ctx):
     if isinstance(x, (tuple, list)) and nm in ("max", "min") and all(isinstance(t, Rat) for t in x):
         return Rat.atom(Fn("maximum" if nm == "max" else "minimum", tuple(x)))
     if isinstance(x, Rat):
-        return Rat.atom(Fn(nm, (x, _axis(ax))))
+        return mk_reduce(nm, x, _axis(ax))
     return NotImplemented
+
+
+def mk_reduce(nm, x, ax):
+    """reduction atom; a reduction along axis k >= 1 of a stacked comprehension reduces each item along axis k - 1:
+    array([f(c) for c in rng]).sum(1) is array([f(c).sum(0) for c in rng])"""
+    la = x.single_atom() if isinstance(x, Rat) else None
+    if isinstance(la, Fn) and la.name == "listcomp" and isinstance(ax, int) and not isinstance(ax, bool) and ax >= 1 and isinstance(la.args[0], Rat) \
+            and nm in ("sum", "mean", "max", "min", "std", "var", "prod"):
+        return Rat.atom(Fn("listcomp", (Rat.atom(Fn(nm, (la.args[0], ax - 1))),) + tuple(la.args[1:])))
+    return Rat.atom(Fn(nm, (x, ax)))
 
 
 @ext("numpy.maximum", "numpy.minimum")
@@ -2335,7 +2450,11 @@ def _linspace(I, a, k, e, env, ctx):
 
 @ext("numpy.meshgrid")
 def _meshgrid(I, a, k, e, env, ctx):
-    if len(a) == 2 and all(isinstance(x, Rat) for x in a) and not k:
+    ind = k.get("indexing", "xy")
+    if len(a) == 2 and all(isinstance(x, Rat) for x in a) and set(k) <= {"indexing"} and ind in ("xy", "ij"):
+        if ind == "ij":
+            # matrix indexing: X[i, j] = a0[i] ; Y[i, j] = a1[j]
+            return (mk_grid(a[0], 0), mk_grid(a[1], 1))
         # X[i, j] = a0[j]  (varies along axis 1) ; Y[i, j] = a1[i] (varies along axis 0)
         return (mk_grid(a[0], 1), mk_grid(a[1], 0))
     return NotImplemented
@@ -2467,6 +2586,62 @@ def _full(I, a, k, e, env, ctx):
     if isinstance(v, Rat) and v.is_const():
         I.alloc_log.append((ctx.finfo.fq, norm_text(e.func), a, k, e.lineno))
         return v
+    return NotImplemented
+
+
+def _is_slice(x):
+    return isinstance(x, tuple) and len(x) == 4 and x[0] == "slice"
+
+
+def _is_full_slice(x):
+    return _is_slice(x) and x[2] is None and x[3] is None and (x[1] is None or (isinstance(x[1], Rat) and x[1].is_zero()))
+
+
+def mk_getitem(o, idx):
+    """o[idx]; consecutive basic slicings of different axes compose: x[a:b][:, c:d] and x[:, c:d][a:b] are x[a:b, c:d]"""
+    a = o.single_atom() if isinstance(o, Rat) else None
+    if isinstance(a, Fn) and a.name == "getitem" and isinstance(a.args[0], Rat):
+        i1 = a.args[1]
+        i1 = (i1,) if _is_slice(i1) else i1
+        i2 = (idx,) if _is_slice(idx) else idx
+        ok_outer = lambda x: _is_slice(x) or (isinstance(x, Rat) and (x.is_const() or all(isinstance(t, Sym) and "int" in t.flags
+                                                                                             for t in x.atoms())))
+        if isinstance(i1, tuple) and i1 and all(_is_slice(x) for x in i1) and isinstance(i2, tuple) and i2 and all(ok_outer(x) for x in i2):
+            n = max(len(i1), len(i2))
+            full = ("slice", Rat.const(0), None, None)
+            p1 = list(i1) + [full] * (n - len(i1))
+            p2 = list(i2) + [full] * (n - len(i2))
+            out = []
+            for x1, x2 in zip(p1, p2):
+                if _is_full_slice(x1):
+                    out.append(x2)
+                elif _is_full_slice(x2):
+                    out.append(x1)
+                else:
+                    out = None
+                    break
+            if out is not None:
+                while len(out) > 1 and _is_full_slice(out[-1]) and len(out) > max(len(i1), len(i2)):
+                    out.pop()
+                return Rat.atom(Fn("getitem", (a.args[0], tuple(out) if len(out) > 1 or isinstance(idx, tuple) or isinstance(a.args[1], tuple)
+                                               else out[0])))
+    return Rat.atom(Fn("getitem", (o, idx)))
+
+
+@ext("numpy.split", "numpy.array_split")
+def _split(I, a, k, e, env, ctx):
+    # split(x, [k1, k2, ...], axis) -> (x[:k1], x[k1:k2], ..., x[kn:]) along that axis (views)
+    sec = a[1] if len(a) > 1 else k.get("indices_or_sections")
+    ax = a[2] if len(a) > 2 else k.get("axis", Rat.const(0))
+    axc = pyconst(ax) if isinstance(ax, Rat) else None
+    if a and isinstance(a[0], Rat) and isinstance(sec, (list, tuple)) and not _is_slice(sec) and all(isinstance(x, Rat) for x in sec) \
+            and isinstance(axc, int) and axc >= 0 and norm_text(e.func).split(".")[-1] == "split":
+        edges = [Rat.const(0)] + list(sec) + [None]
+        out = []
+        for lo, hi in zip(edges[:-1], edges[1:]):
+            sl = ("slice", lo, hi, None)
+            out.append(mk_getitem(a[0], sl if axc == 0 else tuple([("slice", Rat.const(0), None, None)] * axc + [sl])))
+        return out
     return NotImplemented
 
 
